@@ -298,6 +298,22 @@ def print_observe(case):
     return ["(ok ((%s) %s))" % (" ".join(hexs(l) for l in r[1]), "true" if r[2] == 1 else "false")]
 
 
+def _invalid_regex_among(exprs):
+    """some accepted expression is a regular-expression search whose pattern `re` rejects (C15's subject)"""
+    import re as _re
+    for x in exprs:
+        try:
+            t = _E["get_search_term"](_E["log"], x)
+        except Exception:  # noqa
+            continue
+        if t is not None and str(t.method) == "=~":
+            try:
+                _re.compile(t.term)
+            except _re.error:
+                return True
+    return False
+
+
 def print_judge(case):
     """"prints exactly the search results": one line per distinct str(path) of the real search results of the
     accepted expressions, in order; in the paths-only mode the line IS that text."""
@@ -307,6 +323,8 @@ def print_judge(case):
         import re as _re
         if isinstance(r[1], _re.error) or isinstance(getattr(r[1], "__cause__", None), _re.error):
             return None
+        if _invalid_regex_among(exprs):
+            return None     # the same situation after the repo's "YAMLPathException instead of re.error" fix
         return None if fl[3] else "other: process_yaml_file raised %s" % type(r[1]).__name__
     st, data = load(text)
     exp = []
@@ -634,7 +652,9 @@ def unsafe_key(k, sep, at_root, member=False):
         return True
     if k == "" or "*" in k or k[0] == "&":
         return True
-    special = "\\()[]^$% '\"" + ("." if sep == "dot" else "/")
+    # the guard safe_key of C07_resolves_text_partial (Model/PathBuild.v pb_hard): a back-slash directly before a
+    # back-slash, the separator, ( [ ] blank or a quote; before ) ^ $ % it is harmless (plain text outside brackets)
+    special = "\\([] '\"" + ("." if sep == "dot" else "/")
     for i in range(len(k) - 1):
         if k[i] == "\\" and k[i + 1] in special:
             return True
@@ -657,9 +677,10 @@ def discrepancies(case):
         return []
     if r[0] == "exc":
         import re as _re
-        if isinstance(r[1], _re.error) or isinstance(getattr(r[1], "__cause__", None), _re.error):
+        if (isinstance(r[1], _re.error) or isinstance(getattr(r[1], "__cause__", None), _re.error)
+                or _invalid_regex_among([expr])):
             # an invalid regular expression is no search expression: C15's subject, not C07's (since the
-            # library wraps re.error into YAMLPathException the cause is looked at)
+            # library wraps re.error into YAMLPathException the cause / the term itself is looked at)
             return []
         return [("other", "the search raised %s: %s" % (type(r[1]).__name__, r[1]))]
     if o[2]:
